@@ -87,16 +87,17 @@ Definition c07_monitor (u : universe) (f : fdecl) (d opts : list arg) (ob : op_o
 
 (* ---------- C08: Redefine (strict domain) ---------- *)
 Definition rfield_ty (r : rfield) : ty := match r with RNamed _ t | RTyped t => t end.
+Definition rfield_name (r : rfield) : string := match r with RNamed n _ => n | RTyped _ => EmptyString end.
 Definition c08_redefine_ok (u : universe) (f : fdecl) (b bo : builder) (e : obs_err) (ins : list rfield) : bool :=
   let out_rejected := match b_fout bo with
-                      | Some flt => negb (forallb (fun fld => flt_ok u flt (f_ty fld)) (fn_out f))
+                      | Some flt => negb (forallb (fun fld => flt_okv u flt (f_name fld) (f_ty fld) (f_sub fld)) (fn_out f))
                       | None => false end in
   if out_rejected then match e with ObsFilterOut => true | _ => false end
   else
     match e with
     | ObsOk =>
         (* every input passes the filter, none is keyed like a supplied value *)
-        forallb (fun r => match b_fin b with Some flt => flt_ok u flt (rfield_ty r) | None => true end) ins &&
+        forallb (fun r => match b_fin b with Some flt => flt_okv u flt (rfield_name r) (rfield_ty r) EmptyString | None => true end) ins &&
         forallb (fun r => match r with
                           | RNamed n t => negb (mem (KVal n t EmptyString) (input_vertices b))
                           | RTyped t => negb (mem (KOut t EmptyString) (input_vertices b))
@@ -104,7 +105,7 @@ Definition c08_redefine_ok (u : universe) (f : fdecl) (b bo : builder) (e : obs_
     | ObsFilterOut => false
     | _ =>
         (* must succeed whenever every parameter of the target is itself permitted *)
-        negb (forallb (fun fld => match b_fin b with Some flt => flt_ok u flt (f_ty fld) | None => true end) (fn_in f))
+        negb (forallb (fun fld => match b_fin b with Some flt => flt_okv u flt (f_name fld) (f_ty fld) (f_sub fld) | None => true end) (fn_in f))
     end.
 Definition c08_callredef_ok (e : obs_err) : bool :=
   match e with ObsUnsat _ _ _ _ _ | ObsMissing | ObsBuild | ObsOtherErr => false | _ => true end.
